@@ -13,6 +13,7 @@ import (
 	"verif/internal/h"
 
 	"github.com/relab/gorums"
+	"github.com/relab/gorums/tests/dummy"
 	"google.golang.org/grpc/codes"
 	"google.golang.org/grpc/status"
 )
@@ -92,7 +93,7 @@ type usablePhase struct {
 func RunUsable(e *Env) {
 	R := e.R
 	R.Rule = "workload phases of concurrent and sequential calls of all 21 kinds with cancellation at random instants (before/during/after sending), slow quorum functions, slow and streaming servers, handlers failing one invocation in seven (calls ending by node errors), PCT delays at all channel hook points, " +
-		"plus directed scripts (stale-broken window of reconnect held open with hooks; server streams outrunning a finished correctable; cancellation while a write is blocked by flow control; 600 sequential send-waiting one-way calls each cancelled right after it returned, all of which must arrive); " +
+		"plus directed scripts (stale-broken window of reconnect held open with hooks; server streams outrunning a finished correctable; cancellation while a write is blocked by flow control; 600 sequential send-waiting one-way calls each cancelled right after it returned, all of which must arrive; calls to a method the node's server does not serve); " +
 		"after every phase, with servers answering instantly, a probe RPC with a fresh context to every node (3 attempts); distinct = phase parameters; non-trivial = >=2 calls with cancellation or streaming"
 	R.Assume("a first probe attempt may legitimately fail with 'stream is down' while the stream is being re-created; a node is unusable only if 3 attempts fail or a probe stays parked (hang rule)")
 	rng := e.Rand(9)
@@ -106,6 +107,7 @@ func RunUsable(e *Env) {
 			usablePhase{Kind: "directed", Directed: "cancel-while-write-blocked", N: 1 + rep%2, Calls: 8},
 			usablePhase{Kind: "directed", Directed: "cancel-right-after-return", N: 1 + rep%3, Calls: 300},
 			usablePhase{Kind: "directed", Directed: "oneway-cancel-right-after-return", N: 1 + rep%3, Calls: 600},
+			usablePhase{Kind: "directed", Directed: "call-to-unserved-method", N: 1 + rep%3, Calls: 3},
 			usablePhase{Kind: "directed", Directed: "stream-outruns-while-peer-sender-is-jammed", N: 2 + rep%2, StreamK: 100 + 100*(rep%3), Calls: 1},
 		)
 	}
@@ -351,6 +353,23 @@ func runUsablePhase(e *Env, idx int, ph usablePhase) string {
 			<-t.Done
 		}
 		R.Count("directed.cancel_after_return", 1)
+	case "call-to-unserved-method":
+		// a request for a method the node's server does not serve (another service's method, known to the codec): the server has
+		// nothing to answer it with, so the call ends with its context; the node must serve its own methods afterwards
+		for i := 0; i < ph.Calls; i++ {
+			ctx, cancel := context.WithTimeout(context.Background(), 100*time.Millisecond)
+			node := cl.Node(i % ph.N)
+			t := h.Go("wl:unserved", func() {
+				node.RawNode.RPCCall(ctx, gorums.CallData{Message: &dummy.Empty{}, Method: "dummy.Dummy.Test"})
+			})
+			hi := h.Await(t, e.W)
+			cancel()
+			if hi.Verdict == h.Hung {
+				R.Violate("unusable:"+hi.Sig, "call to a method the server does not serve does not return after its context ended: "+hi.Sig, map[string]any{"phase": ph, "stack": hi.Stack})
+				return hi.Sig
+			}
+		}
+		R.Count("directed.calls_to_a_method_the_server_does_not_serve", int64(ph.Calls))
 	case "oneway-cancel-right-after-return":
 		// the same pattern with send-waiting one-way calls only, and the clause "later calls to it are delivered": such a call
 		// returns after its write has been confirmed, so ending its context afterwards concerns nobody; every message arrives
